@@ -475,6 +475,34 @@ func ruleSplitReadsBeforeWrites(c *Ctx, r *R) {
 		}
 		leftWrites = append(leftWrites, st)
 	})
+	// every other entry read through the view that is not simply copied down into the left half itself - the separator that
+	// moves up (sepKey := all.Key(medianIdx)), wherever it is stored afterwards: in the fresh root here, or in a helper
+	// (growRoot / insertSeparator) it is handed to
+	{
+		have := map[ssa.Instruction]bool{}
+		for _, rd := range rightReads {
+			have[rd] = true
+		}
+		leftCopy := map[ssa.Value]bool{}
+		for _, w := range leftWrites {
+			if st, ok := w.(*ssa.Store); ok {
+				leftCopy[resolveVal(st.Val)] = true
+			}
+		}
+		instrs(fn, func(_ *ssa.BasicBlock, _ int, in ssa.Instruction) {
+			call, ok := in.(*ssa.Call)
+			if !ok || have[call] || leftCopy[call] {
+				return
+			}
+			cal := staticCallee(&call.Call)
+			if cal == nil || cal.Signature.Recv() == nil || !isNamedTypeDeep(cal.Signature.Recv().Type(), treeRel, "amalgam1") {
+				return
+			}
+			if strings.Contains(fname(cal), "Key") || strings.Contains(fname(cal), "Value") || strings.Contains(fname(cal), "Child") {
+				rightReads = append(rightReads, call)
+			}
+		})
+	}
 	if len(rightReads) == 0 || len(leftWrites) == 0 {
 		r.undecided("tree.btree.overfill|halves", fn.Pos(), "the reads for the right half / the writes of the left half were not found")
 		return
